@@ -33,7 +33,7 @@ bounds = c04.bounds
 
 
 def plan(tier, seed):
-    return [{"long_contig": True}] + c04.plan(tier, seed)
+    return [{"long_contig": True}, {"big_nodes": True}] + c04.plan(tier, seed)
 
 
 def contig_end(g, c):
@@ -110,11 +110,67 @@ def long_contig(res, scratch):
             res.count("long_contig_files")
 
 
+BIG_SCALE = 12_000
+
+
+def probe_points(g, c):
+    """start / end candidates on a contig of long nodes: node boundaries and their neighbours, quarter points of every node,
+    powers of two from 4 KiB up and their neighbours"""
+    end = contig_end(g, c)
+    pts = {0, 1, end - 1}
+    for s_ in g.segs.values():
+        if s_.SN != c:
+            continue
+        a, b = s_.SO, s_.SO + s_.LN
+        pts.update({a - 1, a, a + 1, b - 1, a + (b - a) // 4, a + (b - a) // 2, a + 3 * (b - a) // 4})
+    k = 4096
+    while k < end:
+        pts.update({k - 1, k, k + 1})
+        k *= 2
+    return sorted(p for p in pts if 0 <= p < end)
+
+
+def big_nodes(res, scratch):
+    """nodes of 12 kb and 36 kb (a region can lie deep inside one node, far from both of its ends), one short alignment per node"""
+    global regions_for
+    L = gen.Layout((1, 3, 1), "one", BIG_SCALE)
+    orig = regions_for
+
+    def probes(g):
+        out = []
+        for c in g.contigs():
+            pts = probe_points(g, c)
+            out += [(c, a, b) for a in pts for b in pts if a <= b]
+        return out
+
+    regions_for = probes
+    try:
+        for lm in ("realistic",):
+            g = vi.graph_for(L, lm)
+            urecs = []
+            for i, n in enumerate(g.segs):
+                ln = g.segs[n].LN
+                urecs.append(gen.walk_record(i, [("><"[i % 2], n)], ln // 3, ln // 3 + 40, ln))
+            for stable in (False, True):
+                recs = [rgfa.to_stable_model(g, r) for r in urecs] if stable else urecs
+                P = c04.Prepared(scratch, g, L, lm, stable, "one-record-per-node", recs, "plain", "big")
+                if P.ind is None:
+                    res.fail("C05/index-failed", f"index failed on the graph of long nodes: {P.index_out.brief()}", P.case({"regions": []}, None))
+                    continue
+                region_queries(res, P)
+                res.count("files_with_nodes_of_36kb")
+    finally:
+        regions_for = orig
+
+
 def run_shard(spec, tier, scratch):
     res = fw.ShardResult().begin(spec, tier)
     b = bounds(tier)
     if spec.get("long_contig"):
         long_contig(res, scratch)
+        return res
+    if spec.get("big_nodes"):
+        big_nodes(res, scratch)
         return res
     L = conv.layout_from(spec["layout"])
     for P in c04.prepared_files(scratch, L, spec["linkmode"], b["max_steps"], res, "C05"):
@@ -130,8 +186,8 @@ def run_shard(spec, tier, scratch):
 def replay(case, scratch):
     res = fw.ShardResult()
     L = conv.layout_from(case["layout"])
-    if len(L.ref_lens) == 30:
-        return []  # the long-contig file is re-created through its call sequence
+    if len(L.ref_lens) == 30 or L.scale == BIG_SCALE:
+        return []  # the long-contig / long-node files are re-created through their call sequence
     g = vi.graph_for(L, case["linkmode"])
     recs = [rgfa.Rec.parse(l) for l in case["records"]]
     P = c04.Prepared(scratch, g, L, case["linkmode"], case["stable"], "replay", recs, case["variant"], "rp")
